@@ -1,9 +1,13 @@
 package main
 
 import (
+	"context"
 	"io"
 	"net/http"
+	"net/http/httptest"
 	"strings"
+	"sync/atomic"
+	"time"
 
 	"github.com/gin-gonic/gin"
 	"github.com/luraproject/lura/v2/config"
@@ -43,6 +47,10 @@ func newRegistry(kind string) registry {
 		return ginRenderReg{}
 	case "mux-render":
 		return muxRenderReg{}
+	case "gin-render-handler":
+		return ginRenderReg{viaHandler: true}
+	case "mux-render-handler":
+		return muxRenderReg{viaHandler: true}
 	}
 	panic("unknown registry " + kind)
 }
@@ -153,34 +161,70 @@ func (s *sdReg) get(k string) (int64, bool) {
 }
 func (s *sdReg) clone() map[string]int64 { return nil }
 
-type ginRenderReg struct{}
+// viaHandler: look the render up the way the routers do - build an endpoint handler (the
+// factory calls getRender, which resolves the backend encoding and the output encoding) and serve
+// one request through it; otherwise through the exported getWithFallback wrapper.
+type ginRenderReg struct{ viaHandler bool }
+
+func stubProxyFor(resp *proxy.Response) proxy.Proxy {
+	return func(context.Context, *proxy.Request) (*proxy.Response, error) { return resp, nil }
+}
+
+func renderCfg(k string, n int) *config.EndpointConfig {
+	cfg := &config.EndpointConfig{Endpoint: "/x", Method: "GET", Timeout: 10 * time.Second,
+		Backend: []*config.Backend{{URLPattern: "/b", Encoding: "json"}}}
+	if n%2 == 0 {
+		cfg.OutputEncoding = k // two lookups: backend encoding, then output encoding
+	} else {
+		cfg.Backend[0].Encoding = k // one lookup: the backend encoding is the fallback
+	}
+	return cfg
+}
+
+var handlerLookups int64
 
 func (ginRenderReg) reg(k string, v int64) {
 	krakendgin.RegisterRender(k, func(_ *gin.Context, r *proxy.Response) { r.Data["id"] = v })
 }
-func (ginRenderReg) get(k string) (int64, bool) {
-	r, ok := krakendgin.VerifC20GetRender(k)
-	if !ok {
-		return 0, false
+func (g ginRenderReg) get(k string) (int64, bool) {
+	resp := &proxy.Response{Data: map[string]interface{}{"x": 1}, IsComplete: true}
+	if g.viaHandler {
+		n := int(atomic.AddInt64(&handlerLookups, 1))
+		h := krakendgin.EndpointHandler(renderCfg(k, n), stubProxyFor(resp))
+		c, _ := gin.CreateTestContext(httptest.NewRecorder())
+		c.Request = httptest.NewRequest("GET", "/x", nil)
+		h(c)
+	} else {
+		r, ok := krakendgin.VerifC20GetRender(k)
+		if !ok {
+			return 0, false
+		}
+		r(nil, resp)
 	}
-	resp := &proxy.Response{Data: map[string]interface{}{}}
-	r(nil, resp)
-	return resp.Data["id"].(int64), true
+	id, ok := resp.Data["id"].(int64)
+	return id, ok
 }
 func (ginRenderReg) clone() map[string]int64 { return nil }
 
-type muxRenderReg struct{}
+type muxRenderReg struct{ viaHandler bool }
 
 func (muxRenderReg) reg(k string, v int64) {
 	mux.RegisterRender(k, func(_ http.ResponseWriter, r *proxy.Response) { r.Data["id"] = v })
 }
-func (muxRenderReg) get(k string) (int64, bool) {
-	r, ok := mux.VerifC20GetRender(k)
-	if !ok {
-		return 0, false
+func (m muxRenderReg) get(k string) (int64, bool) {
+	resp := &proxy.Response{Data: map[string]interface{}{"x": 1}, IsComplete: true}
+	if m.viaHandler {
+		n := int(atomic.AddInt64(&handlerLookups, 1))
+		h := mux.EndpointHandler(renderCfg(k, n), stubProxyFor(resp))
+		h(httptest.NewRecorder(), httptest.NewRequest("GET", "/x", nil))
+	} else {
+		r, ok := mux.VerifC20GetRender(k)
+		if !ok {
+			return 0, false
+		}
+		r(nil, resp)
 	}
-	resp := &proxy.Response{Data: map[string]interface{}{}}
-	r(nil, resp)
-	return resp.Data["id"].(int64), true
+	id, ok := resp.Data["id"].(int64)
+	return id, ok
 }
 func (muxRenderReg) clone() map[string]int64 { return nil }
